@@ -124,6 +124,9 @@ MkC13(d) ==
       [] d.k = "set" -> P("SetAttribute", [uid |-> d.u, new |-> A(d.n, ValOf(d.n))])
       [] d.k = "create" -> P("Create", CreateP(d.n))
       [] d.k = "register" -> P("Register", PRegister(d.s, AllBits, RegExtra(d.n)))
+      \* a creation template carrying one more attribute, for every name of the menu
+      [] d.k = "createattr" -> P("Create", PCreate(<<"ENCRYPT">>, <<A(d.n, ValOf(d.n))>>))
+      [] d.k = "registerattr" -> P("Register", PRegister(d.s, AllBits, <<A(d.n, ValOf(d.n))>>))
       [] d.k = "regshape" -> P("Register", RegShape(d.s, d.n))
 
 \* only build steps that succeed (the lifecycle is monotone, so the build graph is finite)
@@ -171,6 +174,9 @@ Grid(s) ==
     \cup {D("register", "alice", 12, 0, n, 0, t, FALSE) : t \in Types7 \cup {"Template"}, n \in {"", "alg", "len", "sens", "state", "ctype"}}
     \cup {D("regshape", "alice", 12, 0, n, 0, t, FALSE) : t \in Types7, n \in {"noalg", "nolen", "empty", "pgp"}}
     \cup {D("regshape", "alice", 12, 0, n, 0, "SplitKey", FALSE) : n \in {"prime", "bigprime"}}
+    \cup UNION {{D("createattr", "alice", v, 0, n, 0, "", FALSE) : n \in (IF v < 20 THEN AttrNames ELSE Names20)} : v \in Vers}
+    \cup UNION {{D("registerattr", "alice", v, 0, n, 0, t, FALSE) : t \in {"SymmetricKey", "Certificate", "OpaqueData", "SplitKey"},
+                                                                  n \in (IF v < 20 THEN AttrNames ELSE Names20)} : v \in Vers}
 
 MenuC13(s) == IF LastWasProbe THEN {} ELSE BuildMenu(s) \cup (IF depth >= 1 THEN Grid(s) ELSE {})
 
